@@ -184,13 +184,54 @@ CLAIMS = [
         "level_note": "NOT decided: soundness/completeness of the pattern-matrix algorithm against enumeration of values (a different "
                       "technique); the traces encode my reading of Maranget's algorithm as implemented and alarm on any semantic edit.",
     },
+    {
+        "id": "C12",
+        "technique": "static analysis: cross-check of the formatter's precedence-class tables (typed HIR arm tables) against the precedence levels read from parser.lalrpop; MIR dominance and result-provenance rules on the CLI write path; call-graph reachability to unwraps of the render result; writer/reader escape-table inversion",
+        "level_text": "Decides necessary conditions of 'total and meaning-preserving': every term/pattern former's class equals the grammar level "
+                      "that produces it (33 + 9 formers, no default arm), infix operands and scoped bodies follow level and associativity, the "
+                      "requirement test is the order test; the CLI writes only in format_path, only on the Ok edge of parse+render, only the "
+                      "renderer's untransformed output, only when it differs; no tool entry point reaches an unwrap of RcDoc::render_fmt "
+                      "(render failure is a value); quote_string is the inverse of apply_string_escapes and the printer uses it; grammar-"
+                      "owned parentheses of existential parameters are printed; a constructor name never touches a comment. Each rule "
+                      "fired on a confirmed defect of the pinned tree (F14, F15, F17, F18; repaired) or a confirmed seeded change.",
+        "level_note": "NOT decided: that formatted output re-parses to the same term for every source (child-position requirements, punning, "
+                      "telescope merging, directive nesting are not analysed). Some parseable sources still have no admissible layout: after "
+                      "F14 they are reported as an error and left unchanged, which the property's first sentence still counts against the "
+                      "formatter (documented in DESIGN.md; not detectable by these rules).",
+    },
+    {
+        "id": "C13",
+        "technique": "static analysis: capture/emission agreement between the grammar's arm_prefix actions (read from parser.lalrpop) and the printer's arm anchors (typed HIR), exit-completeness of the comment emitters, reader inventory of the three comment tables, provenance rules of the verbatim copy and of formatter construction",
+        "level_text": "Decides necessary conditions of 'never loses text': arms of data/codata/match/comatch are anchored at the entity under "
+                      "which the parser files their leading comments and arm_block emits them; each entity printer emits its own leading "
+                      "comments on every exit, render roots emit trailing comments, each comment table has one emitter folding over the whole "
+                      "list; verbatim regions are copied as two adjacent source slices ending the annotation at its first `]`; scoped "
+                      "formatters and every tool entry point keep the source text; the CLI writes the renderer's untransformed output; a "
+                      "constructor name is separated from a commented argument. Fired on F17, F19 (repaired) and on all four seeded changes.",
+        "level_note": "NOT decided: the comment capture (which entity a comment is filed under from byte positions), attached text blocks, and the "
+                      "universally quantified statement itself.",
+    },
+    {
+        "id": "C14",
+        "technique": "static analysis: who-constructs / call-graph rule that all tool entry points share one renderer built with the source text; typed-HIR table of arm header boundaries against the wrappability of the header; writer/reader escape inversion; trailing-newline provenance",
+        "level_text": "Decides necessary conditions of 'projection, and --check agrees with fmt': check_path and format_path obtain (source, "
+                      "formatted) from the same function and compare the same pair; fmt, --check and the language server build the "
+                      "formatter with with_source; try_render_unit appends exactly one hardline; the break before an arm's payload is "
+                      "measured from the last wrappable header entity and from the `|` line only for bare names (else the printer's own "
+                      "wrapping is read back: F16, repaired); string literals are fixed points (F15, repaired); existential parameters "
+                      "re-parse (F18, repaired).",
+        "level_note": "NOT decided: idempotence over all starting layouts (Preserve-policy feedback at the other boundaries, blank-line bounds), "
+                      "pun/parenthesis canonical forms. Four confirmed non-idempotent inputs remain on the tree and are NOT detected by these "
+                      "rules (findings/candidates/C14: mid-line block comment creeping, pun recognised only after parenthesis removal (2), "
+                      "layout(ignore) blank line before `=`); they are documented in DESIGN.md, not suppressed.",
+    },
 ]
 
 _PENDING = "check not built yet in this round (static rule designed in DESIGN.md, implementation pending)"
 NOT_APPLICABLE = [
     {"property_id": "C20", "reason": "behavioural equation through a 2800-line type-directed translation; no clause is both visible in the shape of elaborate/monadic/* and a necessary condition of the equation (DESIGN.md C20)"},
 ] + [{"property_id": p, "reason": _PENDING} for p in
-     ["C12", "C13", "C14", "C18", "C19"]]
+     ["C18", "C19"]]
 
 NOTES = ("Static analysis only: every verdict is computed from /repo's current working tree by the zyq rustc driver "
          "(facts) and repository-specific rules; nothing executes zydeco. Exit 2 (no VIOLATION line) means the tree could not "
